@@ -852,6 +852,16 @@ def m_minmax(I, st, call):
         return None
     is_min = call.path.endswith("min")
     le = ("cmp", "Le", a.aff, b.aff)
+    if a.aff.is_const() != b.aff.is_const() and not holds(st, le, True) and not holds(st, le, False):
+        # clamping against a constant: one result symbol with r <= both (min) / r >= both (max) instead of a path
+        # split - repeated clamps (e.g. in a small accessor called many times) would otherwise double the paths each time
+        lo_a, hi_a = st.range(a.aff)
+        lo_b, hi_b = st.range(b.aff)
+        lo, hi = (min(lo_a, lo_b), min(hi_a, hi_b)) if is_min else (max(lo_a, lo_b), max(hi_a, hi_b))
+        r = I.pure_int(st, ("minmax", is_min, a.aff, b.aff), "clamp", a.ty, lo, hi, ("clamp", is_min, a.aff, b.aff))
+        for x in (a, b):
+            st.add_fact(x.aff - r.aff if is_min else r.aff - x.aff)
+        return [(st, r)]
     out = []
     s2 = st.copy()
     for s in assume(st, le, True):
